@@ -83,7 +83,12 @@ func instantiate(s Scenario, r *rand.Rand, tok0 int) (b *Built, err error) {
 	// (registration order matters for func-type identity; it is part of the scenario)
 	if len(b.Convs) > 0 {
 		if r.Intn(2) == 0 {
-			b.CnvArgs = append(b.CnvArgs, am.ConverterFunc(b.Convs...))
+			cs := append([]*am.Func{}, b.Convs...)
+			if r.Intn(2) == 0 { // nil entries are ignored (documented), the converters after them are not
+				pos := r.Intn(len(cs) + 1)
+				cs = append(cs[:pos], append([]*am.Func{nil}, cs[pos:]...)...)
+			}
+			b.CnvArgs = append(b.CnvArgs, am.ConverterFunc(cs...))
 		} else {
 			for _, c := range b.Convs {
 				b.CnvArgs = append(b.CnvArgs, am.ConverterFunc(c))
@@ -237,6 +242,12 @@ func (b *Built) classifyErr(err error, ret *EvRet) {
 			}
 		}
 		msg := err.Error()
+		// the part of the message that lists what is missing (the whole message if it is laid out differently)
+		if i := strings.Index(msg, "Unsatisfiable arguments"); i >= 0 {
+			if j := strings.Index(msg[i:], "==> Full list of desired"); j > 0 {
+				msg = msg[i : i+j]
+			}
+		}
 		ret.MsgOK = true
 		for _, a := range ua.Args {
 			if !strings.Contains(msg, a.String()) {
@@ -399,6 +410,23 @@ func (b *Built) Execute(r *rand.Rand) {
 			ret2.Outs = ResultToks(res2)
 		}
 		env.emit(ret2)
+		// third call: the last declared input is left out; whatever happens, no value of the first call may turn up
+		if len(rd.Inputs) > 0 {
+			env.Phase = s.Phase0 + 3
+			var call3 []am.Arg
+			for _, l := range rd.Inputs[:len(rd.Inputs)-1] {
+				call3 = append(call3, apiArg(l, MkValue(l.Type, 0).Interface(), r.Intn(3)))
+			}
+			res3 := nf.Call(call3...)
+			ret3 := emptyRet("", s.Phase0+3)
+			if e := res3.Err(); e != nil {
+				b.classifyErr(e, &ret3)
+			} else {
+				ret3.Kind = "ok"
+				ret3.Outs = ResultToks(res3)
+			}
+			env.emit(ret3)
+		}
 	default:
 		panic("harness: unknown mode " + s.Mode)
 	}
